@@ -916,7 +916,7 @@ def _grid_once(c, cores, tag):
     except Exception as e:  # noqa
         import traceback
         out["raised"] = [type(e).__name__, str(e)[:100]]
-        out["traceback"] = traceback.format_exc()[-1500:]
+        out["traceback"] = traceback.format_exc()
     rows = []
     try:
         with open(gs.paths.output_path / "results.csv") as f:
@@ -1003,7 +1003,7 @@ def _sens_once(c, cores, tag):
     except Exception as e:  # noqa
         import traceback
         out["raised"] = [type(e).__name__, str(e)[:100]]
-        out["traceback"] = traceback.format_exc()[-1500:]
+        out["traceback"] = traceback.format_exc()
     rows = []
     try:
         with open(sens.results_path) as f:
@@ -1031,6 +1031,50 @@ def case_sens_fit(c):
         sens_mod.Process = saved
     par["evals"] = evals_of(range(c["n"]))
     return {"serial": serial, "parallel": par}
+
+
+# The real-caller cases above are made deterministic with respect to the job-pickling race (known finding
+# job-pickling-race: the feeder thread's first pickling of an instance of a model's class adds __slotnames__ to the class
+# dict that the main thread's model walk may be iterating): every model class used in them is pickled once here, before
+# any case runs.  The race itself is exhibited deterministically by the pickle_walk kind below.
+import pickle as _pickle
+_pickle.dumps(af.Gaussian())
+
+_WALK_SERIAL = [0]
+
+
+def case_pickle_walk(c):
+    """a model query while another thread pickles an instance of the model's class at a forced point of the walk
+    (what Sensitivity._make_jobs and the job queue's feeder thread do concurrently); compared with the same query alone"""
+    import threading
+    _WALK_SERIAL[0] += 1
+    name = "WalkG%d_%d" % (os.getpid(), _WALK_SERIAL[0])
+    state = {"fired": False, "armed": False}
+
+    class Hook:
+        @property
+        def __dict__(self):
+            if state["armed"] and not state["fired"]:
+                state["fired"] = True
+                t = threading.Thread(target=lambda: _pickle.dumps(cls()))
+                t.start()
+                t.join()
+            return {}
+
+    body = {"__module__": "__main__", "a_hook": Hook()}
+    for i in range(c.get("attrs", 2)):
+        body["attr%d" % i] = i
+    cls = type(name, (af.Gaussian,), body)
+    sys.modules["__main__"].__dict__[name] = cls
+    model = af.Model(cls, centre=af.UniformPrior(lower_limit=0.0, upper_limit=1.0), normalization=1.0, sigma=1.0)
+    alone = [list(t.path) if hasattr(t, "path") else str(t[0]) for t in model.prior_tuples_ordered_by_id]
+    state["armed"] = True
+    try:
+        both = [list(t.path) if hasattr(t, "path") else str(t[0]) for t in model.prior_tuples_ordered_by_id]
+        raised = None
+    except Exception as e:  # noqa
+        both, raised = None, [type(e).__name__, str(e)[:100]]
+    return {"alone": alone, "concurrent": both, "raised": raised, "fired": state["fired"]}
 
 
 class TrivialJob(process_mod.AbstractJob):
@@ -1113,7 +1157,7 @@ def case_jobs_race(c):
     return {"hangs": hangs, "wrong": wrong, "stuck": stuck, "calls": c["repeat"]}
 
 
-KINDS = {"emcee_run": case_emcee_run, "smap_twofit": case_smap_twofit, "sneakier": case_sneakier, "grid_fit": case_grid_fit, "sens_fit": case_sens_fit, "jobs_race": case_jobs_race, "smap": case_smap, "smap_free": case_smap_free, "init": case_init, "emcee": case_emcee,
+KINDS = {"pickle_walk": case_pickle_walk, "emcee_run": case_emcee_run, "smap_twofit": case_smap_twofit, "sneakier": case_sneakier, "grid_fit": case_grid_fit, "sens_fit": case_sens_fit, "jobs_race": case_jobs_race, "smap": case_smap, "smap_free": case_smap_free, "init": case_init, "emcee": case_emcee,
          "jobs": case_jobs, "jobs_free": case_jobs_free}
 
 
